@@ -1,6 +1,7 @@
 import PilotaModel.Base.Sexp
 import PilotaModel.Proto.Wire
 import PilotaModel.Proto.Scalar
+import PilotaModel.Proto.Schema
 /-  Line-protocol verbs of track Pb: the model's answer to each request of harness/pbshared. -/
 namespace Driver.Pb
 open Pilota Pilota.Proto
@@ -21,6 +22,122 @@ def svOf : Sexp → Option SVal
   | _ => none
 
 def svs (vs : List SVal) : String := if vs.isEmpty then "-" else " ".intercalate (vs.map svSexp)
+
+/-! ### schemas and message values -/
+
+def ftyOf : Sexp → Option FTy
+  | .atom a => FTy.scalar <$> Codec.ofName a
+  | .list [.atom "msg", i] => FTy.msg <$> i.asNat
+  | _ => none
+
+def declOf : Sexp → Option FieldDecl
+  | .list [.atom "f", t, ty, .atom "req"] => do pure (.single (← t.asNat) (← ftyOf ty) false)
+  | .list [.atom "f", t, ty, .atom "opt"] => do pure (.single (← t.asNat) (← ftyOf ty) true)
+  | .list [.atom "r", t, ty] => do pure (.rep (← t.asNat) (← ftyOf ty))
+  | .list [.atom "m", t, k, ty] => do pure (.map (← t.asNat) (← k.asAtom >>= Codec.ofName) (← ftyOf ty))
+  | .list (.atom "o" :: vs) => do
+    let l ← vs.mapM fun v => match v with
+      | .list [t, ty] => do pure ((← t.asNat), (← ftyOf ty))
+      | _ => none
+    pure (.oneof l)
+  | _ => none
+
+def schemaOf : Sexp → Option Schema
+  | .list (.atom "schema" :: ms) => ms.mapM fun m => match m with
+    | .list (.atom "msg" :: ds) => ds.mapM declOf
+    | _ => none
+  | _ => none
+
+mutual
+partial def eOf (s : Schema) : FTy → Sexp → Option EVal
+  | .scalar _, x => EVal.s <$> svOf x
+  | .msg i, x => EVal.msg <$> slotsOf s (decls s i) x
+partial def slotsOf (s : Schema) (ds : List FieldDecl) : Sexp → Option Slots
+  | .list (.atom "msg" :: xs) =>
+    if xs.length != ds.length then none
+    else Slots.ofList <$> (ds.zip xs).mapM fun (d, x) => slotOf s d x
+  | _ => none
+partial def slotOf (s : Schema) : FieldDecl → Sexp → Option Slot
+  | .single _ _ true, .atom "none" => some .none
+  | .oneof _, .atom "none" => some .none
+  | .single _ ty false, .list [.atom "req", x] => Slot.req <$> eOf s ty x
+  | .single _ ty true, .list [.atom "some", x] => Slot.some <$> eOf s ty x
+  | .rep _ ty, .list (.atom "rep" :: xs) => (Slot.rep ∘ EVals.ofList) <$> xs.mapM (eOf s ty)
+  | .map _ _ vty, .list (.atom "map" :: es) => do
+    let l ← es.mapM fun e => match e with
+      | .list [k, v] => do pure ((← svOf k), (← eOf s vty v))
+      | _ => none
+    pure (.map (Pairs.ofList l))
+  | .oneof vs, .list [.atom "one", t, x] => do
+    let t ← t.asNat
+    let ty ← lookupVariant vs t
+    pure (.one t (← eOf s ty x))
+  | _, _ => none
+end
+
+/-- order of `SV` in the harness (`derive(Ord)`): keys of one map have one constructor. -/
+def svLt : SVal → SVal → Bool
+  | .int a, .int b => a < b
+  | .bool a, .bool b => !a && b
+  | .bs a, .bs b => bytesLt a b
+  | .f32 a, .f32 b => a < b
+  | .f64 a, .f64 b => a < b
+  | _, _ => false
+where
+  bytesLt : Bytes → Bytes → Bool
+    | [], [] => false
+    | [], _ :: _ => true
+    | _ :: _, [] => false
+    | x :: xs, y :: ys => if x < y then true else if y < x then false else bytesLt xs ys
+
+def insertSorted (k : SVal) (v : EVal) : List (SVal × EVal) → List (SVal × EVal)
+  | [] => [(k, v)]
+  | (k', v') :: r => if svLt k k' then (k, v) :: (k', v') :: r else (k', v') :: insertSorted k v r
+
+def sortPairs (l : List (SVal × EVal)) : List (SVal × EVal) := l.foldl (fun acc (k, v) => insertSorted k v acc) []
+
+mutual
+partial def eSexp : EVal → String
+  | .s v => svSexp v
+  | .msg fs => slotsSexp fs
+partial def slotsSexp (fs : Slots) : String := "(msg" ++ String.join (fs.toList.map fun x => " " ++ slotSexp x) ++ ")"
+partial def slotSexp : Slot → String
+  | .req v => s!"(req {eSexp v})"
+  | .none => "none"
+  | .some v => s!"(some {eSexp v})"
+  | .rep xs => "(rep" ++ String.join (xs.toList.map fun x => " " ++ eSexp x) ++ ")"
+  | .map kvs => "(map" ++ String.join ((sortPairs kvs.toList).map fun (k, v) => s!" ({svSexp k} {eSexp v})") ++ ")"
+  | .one t v => s!"(one {t} {eSexp v})"
+end
+
+-- maps re-ordered by key at every level (what a `BTreeMap` iterates)
+mutual
+partial def sortE : EVal → EVal
+  | .s v => .s v
+  | .msg fs => .msg (sortSlots fs)
+partial def sortSlots (fs : Slots) : Slots := Slots.ofList (fs.toList.map sortSlot)
+partial def sortSlot : Slot → Slot
+  | .req v => .req (sortE v)
+  | .none => .none
+  | .some v => .some (sortE v)
+  | .rep xs => .rep (EVals.ofList (xs.toList.map sortE))
+  | .map kvs => .map (Pairs.ofList ((sortPairs kvs.toList).map fun (k, v) => (k, sortE v)))
+  | .one t v => .one t (sortE v)
+end
+
+mutual
+partial def multiE : EVal → Bool
+  | .s _ => false
+  | .msg fs => fs.toList.any multiSlot
+partial def multiSlot : Slot → Bool
+  | .req v | .some v | .one _ v => multiE v
+  | .none => false
+  | .rep xs => xs.toList.any multiE
+  | .map kvs => kvs.toList.length ≥ 2 || kvs.toList.any fun (_, v) => multiE v
+end
+
+def flagOf : String → Option Bool
+  | "f0" => some false | "f1" => some true | _ => none
 
 def answer (items : List Sexp) : Option String := do
   let verb ← items.head? >>= Sexp.asAtom
@@ -88,6 +205,45 @@ def answer (items : List Sexp) : Option String := do
     let bs ← items[1]? >>= Sexp.asHex
     match decodeVarint bs with
     | .ok (v, _) => pure s!"ok {v}"
+    | o => pure o.cls
+  | "pbenc" | "pbcat" =>
+    let bt := (← items[1]? >>= Sexp.asAtom) == "bt"
+    let flag ← items[2]? >>= Sexp.asAtom >>= flagOf
+    let s ← items[3]? >>= schemaOf
+    let i ← items[4]? >>= Sexp.asNat
+    let m ← items[5]? >>= slotsOf s (decls s i)
+    let m := if bt then sortSlots m else m
+    let b := encode s flag i m
+    if verb == "pbenc" then
+      let shown := if !bt && (Slots.toList m).any multiSlot then "~" else hexOrDash b
+      pure s!"ok {shown} len={encodedLen s flag i m}"
+    else
+      let m2 ← items[6]? >>= slotsOf s (decls s i)
+      let m2 := if bt then sortSlots m2 else m2
+      match decode s i (b ++ encode s flag i m2) with
+      | .ok r => pure s!"ok {slotsSexp r}"
+      | o => pure o.cls
+  | "pbdec" =>
+    let s ← items[2]? >>= schemaOf
+    let i ← items[3]? >>= Sexp.asNat
+    let bs ← items[4]? >>= Sexp.asHex
+    match decode s i bs with
+    | .ok r => pure s!"ok {slotsSexp r}"
+    | o => pure o.cls
+  | "pbdld" =>
+    let s ← items[2]? >>= schemaOf
+    let i ← items[3]? >>= Sexp.asNat
+    let bs ← items[4]? >>= Sexp.asHex
+    match decodeLengthDelimited s i bs with
+    | .ok (r, rest) => pure s!"ok {slotsSexp r} rem={rest.length}"
+    | o => pure o.cls
+  | "pbmrg" =>
+    let s ← items[2]? >>= schemaOf
+    let i ← items[3]? >>= Sexp.asNat
+    let m ← items[4]? >>= slotsOf s (decls s i)
+    let bs ← items[5]? >>= Sexp.asHex
+    match decodeInto s i m bs with
+    | .ok r => pure s!"ok {slotsSexp r}"
     | o => pure o.cls
   | _ => none
 
